@@ -54,16 +54,25 @@ EvPeerSend == /\ IsEv("PeerSend")
 \* receives this peer's datagrams on that listener is open (R3)
 EvAccept == /\ IsEv("Accept") /\ ~Known(Ev.sid)
             /\ \E d \in inflight : d.p = Ev.p /\ d.lid # 0 /\ ~OwnerOpen(d.p, d.lid)
-            /\ SetSess(Ev.sid, [peer |-> Ev.p, st |-> "open"])
+            /\ SetSess(Ev.sid, [peer |-> Ev.p, st |-> "open", lid |-> 0, ls |-> TRUE])
             /\ UNCHANGED <<cap, inflight, pend, outs, owner>>
 
+\* lid: the listener of a connect-via-listener call, 0 for a plain connect (own socket); ls: the session lives on a listener
 EvConnCall == /\ IsEv("ConnCall") /\ ~Known(Ev.sid)
-              /\ SetSess(Ev.sid, [peer |-> Ev.p, st |-> "pending"])
+              /\ SetSess(Ev.sid, [peer |-> Ev.p, st |-> "pending", lid |-> Ev.lid, ls |-> Ev.lid # 0])
               /\ UNCHANGED <<cap, inflight, pend, outs, owner>>
 
+\* R3 for sessions opened by connect-via-listener: the session is bound to the address its host argument RESOLVES to, however
+\* the caller spelled it.  When no other listener-side session of that peer is open (on any listener: the oracle does not say
+\* whether the engine's index is per listener), the new session is the one that peer's datagrams on its listener belong to.
+OtherOpen(sid, p) == \E s \in DOMAIN sess : s # sid /\ sess[s].st = "open" /\ sess[s].ls /\ sess[s].peer = p
 EvConnect == /\ IsEv("Connect") /\ Known(Ev.sid) /\ sess[Ev.sid].st = "pending" /\ sess[Ev.sid].peer = Ev.p
-             /\ SetSess(Ev.sid, [peer |-> Ev.p, st |-> "open"])
-             /\ UNCHANGED <<cap, inflight, pend, outs, owner>>
+             /\ SetSess(Ev.sid, [sess[Ev.sid] EXCEPT !.st = "open"])
+             /\ owner' = IF sess[Ev.sid].lid # 0 /\ ~OtherOpen(Ev.sid, Ev.p)
+                          THEN [k \in DOMAIN owner \cup {<<Ev.p, sess[Ev.sid].lid>>} |->
+                                   IF k = <<Ev.p, sess[Ev.sid].lid>> THEN Ev.sid ELSE owner[k]]
+                          ELSE owner
+             /\ UNCHANGED <<cap, inflight, pend, outs>>
 
 EvClose == /\ IsEv("Close")
            /\ IF Known(Ev.sid) THEN SetSess(Ev.sid, [sess[Ev.sid] EXCEPT !.st = "closed"]) ELSE UNCHANGED sess
